@@ -997,6 +997,7 @@ static void caseC10(long long k, Rng& g)
    };
    double minStab = minStabOf(stab0);
    int sinceRefac = 0, maxChain = 0, applied = 0;
+   bool noUpdateVectorSetUp = false, etaArgSinceRefac = false;
    double pRefac = g.chance(0.5) ? 0.0 : 0.04;
    Q condCap = qd(1e6);
    for(int step = 0; step < maxUpd; step++)
@@ -1064,13 +1065,28 @@ static void caseC10(long long k, Rng& g)
       ent.haveSol = true;
       static const int UPDV[5] = {R_4UPD, R_2UPD_D, R_2UPD_S, R_3UPD_D, R_3UPD_S};
       int uv = g.chance(0.5) ? R_4UPD : UPDV[g.range(1, 4)];
+      // documented alternative (SLinSolver::change: "one may also pass the optional parameter eta to the solution of solveRight() if
+      // readily available"): no solve*4update, eta = B^-1 subst from solveRight.  Only valid while no update vector is set up, i.e.
+      // directly after load()/change().
+      bool etaArg = noUpdateVectorSetUp && g.chance(0.5);
       bool usePersist = g.chance(0.7);
       SSVectorBase<double> xl(n, tol);
       SSVectorBase<double>& x = usePersist ? xpersist : xl;
-      runVariant(C, g, uv, &ent, &x, true);
-      S.count(std::string("c10.update.via.") + VARNAME[uv] + "." + ut);
+      if(etaArg)
+      {
+         uv = R_SV;
+         runVariant(C, g, R_SV, &ent, &x, true);
+         x.setup();
+         S.count("c10.update.via.change-with-eta-argument." + ut);
+      }
+      else
+      {
+         runVariant(C, g, uv, &ent, &x, true);
+         S.count(std::string("c10.update.via.") + VARNAME[uv] + "." + ut);
+      }
       DSVectorBase<double> newcol = toSV(ent);
       // precondition of the update (assert in CLUFactor::update; guaranteed by the ratio test in the simplex): usable computed pivot element
+      if(!etaArg) noUpdateVectorSetUp = false;
       if(!(std::fabs(x[r]) > 1e-12) || (x.isSetup() && x.pos(r) < 0))
       {
          S.count("c10.update.computed_pivot_unusable_skipped");
@@ -1089,7 +1105,7 @@ static void caseC10(long long k, Rng& g)
       std::string what;
       try
       {
-         stc = (int)F.change(r, newcol, g.chance(0.5) ? &x : nullptr);
+         stc = (int)F.change(r, newcol, (etaArg || g.chance(0.5)) ? &x : nullptr);
       }
       catch(const SPxException& ex)
       {
@@ -1101,7 +1117,9 @@ static void caseC10(long long k, Rng& g)
       applied++;
       sinceRefac++;
       C.nupd = sinceRefac;
-      C.phase = "updated";
+      if(etaArg) etaArgSinceRefac = true;
+      C.phase = etaArgSinceRefac ? "updated-etaarg" : "updated";
+      noUpdateVectorSetUp = true;
       S.count("c10.updates_applied");
       S.count("c10.updates_applied." + ut);
       int stNow = (int)F.status();
@@ -1143,6 +1161,8 @@ static void caseC10(long long k, Rng& g)
          sinceRefac = 0;
          C.nupd = 0;
          C.phase = "loaded";
+         etaArgSinceRefac = false;
+         noUpdateVectorSetUp = true;
          if(rs != (int)SLinSolver<double>::OK)
          {
             if(wc) S.viol(std::string("C10:load:") + (rs == (int)SLinSolver<double>::SINGULAR ? "false-singular" : "bad-status-" + std::to_string(rs)), "refactorisation of a nonsingular matrix with cond_inf " + ds(E.cond()) + " gives status " + std::to_string(rs), C.replay());
@@ -1151,7 +1171,11 @@ static void caseC10(long long k, Rng& g)
          }
          minStab = minStabOf((double)F.stability());
       }
-      probe(C, g, (step == maxUpd - 1 || step % 16 == 15) ? NVAR : g.range(2, 4), &xpersist);
+      if(step == maxUpd - 1 || step % 16 == 15 || g.chance(0.8))
+      {
+         probe(C, g, (step == maxUpd - 1 || step % 16 == 15) ? NVAR : g.range(2, 4), &xpersist);
+         noUpdateVectorSetUp = false;   // the probes contain solve*4update calls
+      }
    }
    S.maxi("c10.max_updates_without_refactorization", maxChain);
    int ub = maxChain == 0 ? 0 : maxChain <= 5 ? 1 : maxChain <= 25 ? 2 : maxChain <= 100 ? 3 : 4;
@@ -1351,14 +1375,21 @@ static void caseC11(long long k, Rng& g)
    {
       M = genBase(g, g.pick(std::vector<std::string>({"random-sparse", "triangular", "singletons", "dense-bump"})), n, ent);
       std::string kind = g.pick(SINGKINDS);
-      if(kind == "parallel-col" || kind == "dep-col" || kind == "dep-row")
+      singularize(g, M, kind);
+      if(n >= 2 && g.chance(0.6))
       {
-         // non-dyadic multiples: the double rounding of the matrix is (usually) nonsingular although the matrix is exactly singular
-         singularize(g, M, kind);
-         int a = g.range(0, n - 1), b = n > 1 ? (a + g.range(1, n - 1)) % n : a;
-         if(kind == "parallel-col" && a != b) for(int i = 0; i < n; i++) M[(size_t)i][(size_t)b] = M[(size_t)i][(size_t)a] * Q(1) / Q(3);
+         // non-dyadic dependence: column b = (p/q) column a [+ (r/s) column c], q, s in {3, 7, 10, 11}.  The matrix is exactly singular, but
+         // rounding its entries to double destroys the dependence
+         int a = g.range(0, n - 1), b = (a + g.range(1, n - 1)) % n, c = n > 2 ? (b + 1 + g.range(0, n - 3)) % n : a;
+         if(c == b) c = a;
+         std::vector<int> dens = {3, 7, 10, 11};
+         Q f1 = Q(g.range(1, 9)) / Q(g.pick(dens)), f2 = c != a ? Q(Q(g.range(1, 9)) / Q(g.pick(dens))) : Q(0);
+         bool anyNz = false;
+         for(int i = 0; i < n; i++) if(M[(size_t)i][(size_t)a] != 0) anyNz = true;
+         if(!anyNz) M[(size_t)g.range(0, n - 1)][(size_t)a] = Q(g.range(1, 9));
+         for(int i = 0; i < n; i++) M[(size_t)i][(size_t)b] = f1 * M[(size_t)i][(size_t)a] + (c != a ? Q(f2 * M[(size_t)i][(size_t)c]) : Q(0));
+         kind = "nondyadic-dep-col";
       }
-      else singularize(g, M, kind);
       special = kind;
    }
    else M = genBase(g, fam, n, ent);
